@@ -152,6 +152,8 @@ func (s *vSource) Ack(ctx context.Context, positions []opencdc.Position) error {
 		verifAssert(i >= 0 && i < w.N, "c04-ack-of-unknown-position")
 		verifAssert(i == len(s.acked), "c04-ack-order")
 		verifAssert(w.handled(i), "c01-ack-before-confirmation")
+		// C03 reads the same event as "a restart resumes past a record nobody holds"
+		verifAssert(w.handled(i), "c03-acknowledged-record-not-held-anywhere")
 		if i >= 0 && i < w.N && !w.handled(i) {
 			// the same event seen from the failure-handling side: a record that a
 			// destination rejected / a processor failed is acknowledged although it
@@ -372,6 +374,10 @@ func (d *vDest) Write(ctx context.Context, recs []opencdc.Record) error {
 					}
 				}
 				verifAssert(isLeaf, "c08-delivered-record-is-not-a-processor-output")
+				// C05 reads the same event as "filtered or dead-lettered records are absent"
+				verifAssert(isLeaf || len(w.leaves[i]) > 0, "c05-filtered-record-written")
+				// (only for an unsplit record: sibling pieces of a failed piece may be delivered)
+				verifAssert(!(w.errored[i] && k == strconv.Itoa(i)), "c05-dead-lettered-record-written")
 				// ... and it is the version every processor stage produced, not a stale copy
 				for _, pr := range w.procs {
 					verifAssert(r.Metadata["st."+pr.id] == "1", "c08-delivered-record-skipped-a-processor")
